@@ -631,7 +631,7 @@ def shrink(run, failure, mismatch=False, budget=60):
                 continue
             c, m = r
             mm, of = compare(run, [c], [m])
-            still = bool(mm) if mismatch else bool(of)
+            still = bool(mm) if mismatch else (bool(of) and of[0]["reason"] == cur.get("reason", of[0]["reason"]))
             if still:
                 cur = {"case": c, "model": m, "reason": (of[0]["reason"] if of else "mismatch")}
                 progress = True
